@@ -302,6 +302,51 @@ def run(ctx) -> None:
                 ctx.violation(f"C18:xarray-2dims:results-differ-from-healthy-run:{fault[1]}",
                               {**wb, "only_with_fault": [list(map(str, k)) for k in got if k not in ref],
                                "disturbed": [list(map(str, k)) for k in ref if got.get(k) != ref[k]][:5]})
+        # ---- pandas / numpy: a configured stream whose column holds text (a notes column, ids): its tests raise on the data and
+        #      drop out; everything else is what it is without that entry
+        from ioos_qc.config import Config as _Config  # noqa: PLC0415
+        from ioos_qc.streams import NumpyStream as _NS, PandasStream as _PS  # noqa: PLC0415
+
+        for it in range(ctx.pick(30, 150)):
+            if not ctx.mine(it):
+                continue
+            n = rng.choice([3, 5, 8])
+            tb = P.Table(n, streams=("v1",))
+            w = rng.choice([w_ for w_ in P.window_layouts(tb) if tb.rows_in(w_).any()])  # (on zero rows there is no text to choke on)
+            healthy = [HEALTHY[k] for k in rng.choice([["probe"], ["probe", "gross"], ["gross", "spike", "valid"]])]
+            text = [f"note {k}" for k in range(n)]
+            bad_tests = rng.sample([HEALTHY["gross"], HEALTHY["spike"], ("qartod", "flat_line_test", {"suspect_threshold": 60, "fail_threshold": 120, "tolerance": 1})],
+                                   rng.choice([1, 2]))
+            order = rng.choice([("v1", "notes"), ("notes", "v1")])
+            base_c = [{"window": w, "streams": {"v1": healthy}}]
+            faulty_c = [{"window": w, "streams": {k: (healthy if k == "v1" else bad_tests) for k in order}}]
+            fe = rng.choice(["pandas", "numpy-dict"])
+            def run_text(ctxs):
+                cfg = _Config(P.build_config(ctxs))
+                if fe == "pandas":
+                    df = P.to_frame(tb)
+                    df["notes"] = text
+                    return snapshot(list(_PS(df).run(cfg)))
+                return snapshot(list(_NS(inp={"v1": tb.data["v1"], "notes": np.array(text)}, time=tb.time, z=tb.z, lat=tb.lat, lon=tb.lon).run(cfg)))
+            wb = {"kind": "fault-run", "frontend": fe + " (with a text column)", "table": tb.describe(), "healthy_config": core.jsonable(base_c),
+                  "faulty_config": core.jsonable(faulty_c), "text_column": text}
+            try:
+                ref = run_text(base_c)
+            except Exception as e:  # noqa: BLE001
+                ctx.violation(f"C18:{fe}:text-column:healthy-run-raised:{type(e).__name__}", {**wb, "error": repr(e)[:300]})
+                continue
+            ctx.count("c18.fault_runs")
+            ctx.count("c18.text_column_runs")
+            ctx.case(f"text-column|{fe}|{order[0]}-first|k{len(bad_tests)}")
+            try:
+                got = run_text(faulty_c)
+            except Exception as e:  # noqa: BLE001
+                ctx.violation(f"C18:{fe}:text-column:run-did-not-complete:{type(e).__name__}@{P.client_where(e)}", {**wb, "error": repr(e)[:300]})
+                continue
+            if got != ref:
+                ctx.violation(f"C18:{fe}:text-column:results-differ-from-healthy-run",
+                              {**wb, "only_with_fault": [list(map(str, k)) for k in got if k not in ref],
+                               "disturbed": [list(map(str, k)) for k in ref if got.get(k) != ref[k]][:5]})
         ctx.exhaustive.append("fault kind (21) x position (5) x front end (8) x healthy set (3), " +
                               ("complete" if ctx.thorough else "every second combination"))
     finally:
